@@ -207,7 +207,7 @@ pub fn run_batch(ctx: &mut Ctx, calls: &[Call], start_data: Vec<u8>, start_offs:
 }
 
 pub fn run(ctx: &mut Ctx) {
-    let n = ctx.budget(12_000, 500_000);
+    let n = ctx.budget(150_000, 3_000_000);
     for i in 0..n {
         if !ctx.next_case() {
             return;
